@@ -1490,8 +1490,9 @@ func main() {
 		subsets := 16
 		for subset := 0; subset < subsets; subset++ {
 			other := (subset*7 + 3) % 16
-			// the subsets of add/remove handlers ride along: bits 4, 5
-			specs := richSchema(subset|((subset%4)<<4), other, subset%2 == 1)
+			// the subsets of add/remove handlers ride along (bits 4, 5), decoupled from the Get bit:
+			// AddMembers is absent iff Patch is present, RemoveMembers iff Create is
+			specs := richSchema(subset|(((subset>>1)%4)<<4), other, subset%2 == 1)
 			for _, p := range paths {
 				depth := len(strings.Split(strings.TrimPrefix(p, "/"), "/"))
 				for _, m := range methods {
